@@ -1,6 +1,7 @@
 CONSTANTS
  Hooks = {"pre-push", "post-checkout"}
  Keys = {"clean", "smudge", "process", "required"}
+Scopes = {"global", "local", "worktree"}
  MaxOps = 2
  MaxVaried = 2
  Emit = TRUE
@@ -8,5 +9,6 @@ SPECIFICATION Spec
 VIEW View
 PROPERTY NoDestroy
 PROPERTY Idempotent
+PROPERTY ScopeIsolation
 ACTION_CONSTRAINT EmitEdge
 CHECK_DEADLOCK FALSE
